@@ -27,6 +27,7 @@ import (
 	"fmt"
 	"os"
 	"sort"
+	"strconv"
 	"strings"
 	"testing"
 
@@ -723,6 +724,9 @@ func TestC31(t *testing.T) {
 		return
 	}
 	c31Sweep(t, rec)
+	for _, in := range corpusInputs("FuzzC31") {
+		c31FuzzOne(t, rec, in)
+	}
 	rapid.Check(t, func(rt *rapid.T) {
 		tab := rapid.SampledFrom(c31Tabs).Draw(rt, "table-size")
 		maxStr := 0
@@ -760,29 +764,58 @@ func FuzzC31(f *testing.F) {
 	rec := ev.New("C31", c31Rule)
 	f.Add([]byte{0x85, 0, 0, 0x82, 0x86, 0x84, 0x41, 0x8c, 0xf1, 0xe3, 0xc2, 0xe5, 0xf2, 0x3a, 0x6b, 0xa0, 0xab, 0x90, 0xf4, 0xff})
 	f.Add([]byte{0x05, 0, 1, 0x00, 0x01, 'a', 0x85, 0x00, 0x3f, 0xff, 0xff, 0xff})
-	f.Fuzz(func(t *testing.T, data []byte) {
-		if len(data) < 3 || len(data) > 4096 {
+	f.Fuzz(func(t *testing.T, data []byte) { c31FuzzOne(t, rec, data) })
+}
+
+func c31FuzzOne(t ev.TB, rec *ev.Rec, data []byte) {
+	if len(data) < 3 || len(data) > 4096 {
+		return
+	}
+	tab := c31Tabs[int(data[0]&0x0f)%len(c31Tabs)]
+	maxStr := 0
+	if data[1]&0x80 != 0 {
+		maxStr = int(data[1]&0x3f) + 1
+	}
+	s := newC31Session(tab, maxStr)
+	if data[0]&0x80 != 0 {
+		pre := []byte{0x40, 0x03, 'x', '-', 'a', 0x02, 'v', '1', 0x40, 0x03, 'x', '-', 'b', 0x02, 'v', '2', 0x41, 0x01, 'h'}
+		if !s.feed(t, rec, -1, pre, nil, blockInfo{intent: "history"}) {
 			return
 		}
-		tab := c31Tabs[int(data[0]&0x0f)%len(c31Tabs)]
-		maxStr := 0
-		if data[1]&0x80 != 0 {
-			maxStr = int(data[1]&0x3f) + 1
+	}
+	blk := data[3:]
+	var cuts []int
+	if step := int(data[2] & 0x0f); step > 0 {
+		for i := step; i < len(blk) && len(cuts) < 64; i += step {
+			cuts = append(cuts, i)
 		}
-		s := newC31Session(tab, maxStr)
-		if data[0]&0x80 != 0 {
-			pre := []byte{0x40, 0x03, 'x', '-', 'a', 0x02, 'v', '1', 0x40, 0x03, 'x', '-', 'b', 0x02, 'v', '2', 0x41, 0x01, 'h'}
-			if !s.feed(t, rec, -1, pre, nil, blockInfo{intent: "history"}) {
-				return
-			}
+	}
+	s.feed(t, rec, -1, blk, cuts, blockInfo{intent: "fuzz-input"})
+}
+
+// corpusInputs reads the committed seed corpus of a native fuzz target
+// (go fuzz corpus file format, one []byte value per file).
+func corpusInputs(target string) [][]byte {
+	root := os.Getenv("VERIF_ROOT")
+	if root == "" {
+		root = "/verif"
+	}
+	ents, _ := os.ReadDir(root + "/corpus/" + target)
+	var out [][]byte
+	for _, e := range ents {
+		b, err := os.ReadFile(root + "/corpus/" + target + "/" + e.Name())
+		if err != nil {
+			continue
 		}
-		blk := data[3:]
-		var cuts []int
-		if step := int(data[2] & 0x0f); step > 0 {
-			for i := step; i < len(blk) && len(cuts) < 64; i += step {
-				cuts = append(cuts, i)
-			}
+		lines := strings.Split(strings.TrimSpace(string(b)), "\n")
+		if len(lines) != 2 || !strings.HasPrefix(lines[1], "[]byte(") {
+			continue
 		}
-		s.feed(t, rec, -1, blk, cuts, blockInfo{intent: "fuzz"})
-	})
+		q, err := strconv.Unquote(strings.TrimSuffix(strings.TrimPrefix(lines[1], "[]byte("), ")"))
+		if err != nil {
+			continue
+		}
+		out = append(out, []byte(q))
+	}
+	return out
 }
